@@ -98,13 +98,21 @@ func (s bitmap32) And(provider Provider[uint32]) {
 		s.bitmap.And(typedProvider.bitmap)
 
 	case Duplex[uint32]:
+		// Collect first, remove afterwards: removing from the bitmap while iterating over it makes the
+		// iterator skip elements (and whole containers).
+		var removals []uint32
+
 		s.Each(func(nextValue uint32) bool {
 			if !typedProvider.Contains(nextValue) {
-				s.Remove(nextValue)
+				removals = append(removals, nextValue)
 			}
 
 			return true
 		})
+
+		for _, value := range removals {
+			s.Remove(value)
+		}
 	}
 }
 
@@ -137,12 +145,20 @@ func (s bitmap32) AndNot(provider Provider[uint32]) {
 		s.bitmap.AndNot(typedProvider.bitmap)
 
 	case Duplex[uint32]:
+		// Collect first, remove afterwards: removing from the bitmap while iterating over it makes the
+		// iterator skip elements (and whole containers).
+		var removals []uint32
+
 		s.Each(func(nextValue uint32) bool {
 			if typedProvider.Contains(nextValue) {
-				s.Remove(nextValue)
+				removals = append(removals, nextValue)
 			}
 
 			return true
 		})
+
+		for _, value := range removals {
+			s.Remove(value)
+		}
 	}
 }
